@@ -460,10 +460,58 @@ pub fn run(cases_path: &str, out_path: &str, tier: &str, seed: u64, which: &str)
                     m.verify(&rv).map_err(|x| format!("VERIFY side (prefix-signed message, Message::verify, reads of {sched:?}): a signature over the RFC preimage is rejected: {x}"))?;
                     if rv.last().as_deref() != Some(&want[..]) { return Err("VERIFY side (prefix-signed message): digest differs".into()); }
                 }
+                // two signatures of DIFFERENT types over the same literal (this one and one of the other type, in both orders): each is
+                // hashed in its own mode - the other signature's digest is that of its own layout
+                if len <= 1100 {
+                    let otyp = if text { SignatureType::Binary } else { SignatureType::Text };
+                    let mut ocfg = if sv == 6 { SignatureConfig::v6(rng(seed ^ 0x0771 ^ len as u64), otyp, k.primary_key.algorithm(), HashAlgorithm::Sha256).map_err(e)? } else { SignatureConfig::v4(otyp, k.primary_key.algorithm(), HashAlgorithm::Sha256) };
+                    ocfg.hashed_subpackets = cfg.hashed_subpackets.clone();
+                    let otoks = tok_for(if text { 0 } else { 1 }, sv);
+                    let octx = Ctx { cfg: &ocfg, doc: &doc, signee: vec![], primary: vec![], subkey: vec![], selfkey: vec![], idbody: vec![] };
+                    let owant = digest(HashAlgorithm::Sha256, &[&concretise(&otoks, &octx)?]);
+                    let oforged = forge_data_signature(ocfg.clone(), &k.primary_key, &doc)?;
+                    for order in 0..2 {
+                        let (first, second, wants) = if order == 0 { (&forged, &oforged, [&want, &owant]) } else { (&oforged, &forged, [&owant, &want]) };
+                        let mut msg2 = Packet::from(first.clone()).to_bytes().map_err(e)?;
+                        msg2.extend(Packet::from(second.clone()).to_bytes().map_err(e)?);
+                        msg2.push(0xC0 | 11);
+                        msg2.extend(enc_new_len(lit.len(), true));
+                        msg2.extend_from_slice(&lit);
+                        let mut m = Message::from_bytes(&msg2[..]).map_err(e)?;
+                        let mut o = Vec::new();
+                        m.read_to_end(&mut o).map_err(|x| x.to_string())?;
+                        for (i, w) in wants.iter().enumerate() {
+                            let rv = RecVerifier::new(&pubk.primary_key);
+                            m.verify_nested_explicit(i, &rv).map_err(|x| format!("VERIFY side (two prefix signatures of different types, order {order}, signature {i}): a signature over the RFC preimage is rejected: {x}"))?;
+                            if rv.last().as_deref() != Some(&w[..]) { return Err(format!("VERIFY side (two prefix signatures of different types, order {order}, signature {i}): digest differs")); }
+                        }
+                    }
+                }
                 Ok(())
             });
             sink.put(rec("c11.documents", json!({"len": len, "tail": String::from_utf8_lossy(tail).escape_debug().to_string(), "text": text, "sigver": sv}), r.is_ok(), "digest", json!({"outcome": r.class(), "detail": r.detail()})));
         });
+        // v6 salt sizes (RFC 9580 table 23, carried by the specification's "salt" cases): what the library writes, and what it accepts
+        for c in cases.iter().filter(|c| c["kind"] == "saltlen") {
+            let (hid, want_len) = (c["hash"].as_u64().unwrap() as u8, c["len"].as_u64().unwrap() as usize);
+            nontrivial.fetch_add(1, std::sync::atomic::Ordering::Relaxed);
+            let r = guard(|| -> Result<(), String> {
+                let e = |x: pgp::errors::Error| x.to_string();
+                let h = HashAlgorithm::from(hid);
+                let cfg = SignatureConfig::v6(rng(seed ^ hid as u64), SignatureType::Binary, k6r.primary_key.algorithm(), h).map_err(e)?;
+                let sig = cfg.sign(&k6r.primary_key, &Password::empty(), &b"salted"[..]).map_err(e)?;
+                let bytes = Packet::from(sig.clone()).to_bytes().map_err(e)?;
+                let body = deframe_stream(&bytes)?.remove(0).body;
+                // v6: version, type, pk, hash, hashed len (4), hashed, unhashed len (4), unhashed, left16 (2), salt len (1), salt
+                let hl = u32::from_be_bytes(body[4..8].try_into().unwrap()) as usize;
+                let ul = u32::from_be_bytes(body[8 + hl..12 + hl].try_into().unwrap()) as usize;
+                let at = 12 + hl + ul + 2;
+                if body[at] as usize != want_len { return Err(format!("the library writes a {} octet salt for hash {hid}, RFC 9580 prescribes {want_len}", body[at])); }
+                sig.verify(&k6r.to_public_key(), &b"salted"[..]).map_err(e)?;
+                Ok(())
+            });
+            sink.put(rec("c11.salt_size", json!({"hash": hid, "len": want_len}), r.is_ok(), "digest", json!({"outcome": r.class(), "detail": r.detail()})));
+        }
     } else {
         // ---- C13
         let fcases: Vec<&Value> = cases.iter().filter(|c| c["kind"] == "fingerprint").collect();
